@@ -91,7 +91,7 @@ Section CoreProofs.
 Variable D : dns.
 Variable X : sess.
 Variable makro : bytes -> bytes -> bool -> Cres (mres * list qev).
-Hypothesis makro_nofuel : forall t d e, makro t d e <> OutOfFuel.
+Variable makro_nofuel : forall t d e, makro t d e <> OutOfFuel.
 
 (** "the macro expander has crashed": the only way the model of the core crashes *)
 Definition MC : Prop := exists t d e w, makro t d e = Crash w.
@@ -287,7 +287,7 @@ Qed.
 Section Rec.
 Variable rec : bytes -> gst -> Cres (Z * gst).
 Variable q0 : nat.
-Hypothesis rec_ok : forall n g, P g -> (q0 < g_q g)%nat -> (g_q g <= SPF_TERM_LIMIT)%nat -> post g (rec n g).
+Variable rec_ok : forall n g, P g -> (q0 < g_q g)%nat -> (g_q g <= SPF_TERM_LIMIT)%nat -> post g (rec n g).
 
 Definition tres_post (g : gst) (x : Cres tres) : Prop :=
   match x with
